@@ -7,7 +7,7 @@ C06 line protocol (integer coordinates: the harness sends `sc`·coordinate, sc =
   WQ px py k { closed n x y … }×k          → `W n b|panic C n b T c c c c|panic`
   CCWM <closed> n x y … <reported>         → verdict: model of CCW vs the real answer
   CCWSPEC <closed> n x y … <reported>      → verdict: sign of the area of a simple polygon
-  CROSSV px py k {closed n x y …}×k <reported>  → verdict: Crossings vs the number of crossings (no touch)
+  CROSSV px py k {closed n x y …}×k <reported>  → verdict: Crossings vs the number of side changes of the contour
   FILLM <rule> k {closed n x y …}×k <bits|panic>     → verdict: model of Filling vs the real answer
   FILLSPEC <rule> k {closed n x y …}×k <bits>        → verdict: fills(orientation + winding of the others)
   WINDV <delta> P <poly> PTS <m> x y … W w…          → verdict: reported windings vs `wn` off the δ-band
@@ -92,46 +92,38 @@ def Verdict.render : Verdict → String
   | .ok c s => s!"ok checked={c} skipped={s}"
   | .fail i w r => s!"FAIL windings pt={i} spec={w} reported={r}"
 
-/-! ### Crossings verdict -/
+/-! ### Crossings verdict: the number of places to the right of the point where the contour goes from
+one side of the ray's line to the other (exact, from the vertices alone) -/
 
-/-- number of crossings of one contour with the ray under the half-open rule -/
-def crossChain (p : IPt) : List IPt → Int
-  | a :: b :: rest => (edgeW p a b).natAbs + crossChain p (b :: rest)
-  | _ => 0
+def sgnY (p v : IPt) : Int := sgn (v.y - p.y)
 
-def crossSpec (p : IPt) (cs : List (List IPt)) : Int :=
-  cs.foldl (fun acc c => acc + (match c with | [] => 0 | a :: _ => crossChain p (c ++ [a]))) 0
+/-- walk over the vertices after a first vertex off the line: `s` is the side of the last vertex off
+the line, `run` whether vertices on the line have been passed since and `right` whether they lay to the
+right of the point -/
+def sideWalk (p : IPt) : List IPt → IPt → Int → Bool → Bool → Int → Int
+  | [], _, _, _, _, n => n
+  | v :: rest, prev, s, run, right, n =>
+    let t := sgnY p v
+    if t == 0 then sideWalk p rest v s true (decide (p.x < v.x)) n
+    else if run then sideWalk p rest v t false false (if t != s && right then n + 1 else n)
+    else
+      -- edge prev→v with both ends off the line: crosses it iff the sides differ, to the right of the
+      -- point iff the point is on the left of the upward edge / right of the downward one
+      let crosses := t != s && (if s < 0 then decide (0 < isLeft prev v p) else decide (isLeft prev v p < 0))
+      sideWalk p rest v t false false (if crosses then n + 1 else n)
 
-structure WalkClass where
-  boundary : Bool := false   -- a hit at the ray start
-  unpaired : Bool := false   -- an end-point hit without partner
-  touch : Bool := false      -- the path touches the ray without crossing (vertex or along an edge)
-  step : Bool := false       -- the path crosses the ray along a horizontal edge
-  collinear : Bool := false  -- two consecutive horizontal edges on the ray (both hits of a pair overlap)
-deriving Repr
+/-- rotate the contour so that it starts with a vertex off the ray's line (none: no crossing) -/
+def rotateOff (p : IPt) : List IPt → Nat → List IPt
+  | l, 0 => l
+  | [], _ => []
+  | v :: rest, k + 1 => if sgnY p v != 0 then v :: rest else rotateOff p (rest ++ [v]) k
 
-/-- classify what the ray meets, walking the hit list as `windings` does -/
-def walkClass : List Z → Bool × Bool → WalkClass → WalkClass
-  | [], _, w => w
-  | z :: rest, st, w =>
-    if z.t0zero then walkClass rest st { w with boundary := true }
-    else if !z.endpoint then walkClass rest st w
-    else match rest with
-      | [] => { w with unpaired := true }
-      | z2 :: rest' =>
-        if !z2.endpoint then { w with unpaired := true }
-        else if !(z.same || z2.same) then
-          walkClass rest' st (if z.into == z2.into then w else { w with touch := true })
-        else if z.same != z2.same then
-          let into := if z.same then z2.into else z.into
-          if !st.1 then walkClass rest' (true, into) w
-          else walkClass rest' (false, st.2) (if into == st.2 then { w with step := true } else { w with touch := true })
-        else walkClass rest' st { w with collinear := true }
-termination_by l => l.length
+def sideChanges (p : IPt) (c : List IPt) : Int :=
+  match rotateOff p c c.length with
+  | [] => 0
+  | v :: rest => if sgnY p v == 0 then 0 else sideWalk p (rest ++ [v]) v (sgnY p v) false false 0
 
-def WalkClass.merge (a b : WalkClass) : WalkClass :=
-  ⟨a.boundary || b.boundary, a.unpaired || b.unpaired, a.touch || b.touch, a.step || b.step,
-    a.collinear || b.collinear⟩
+def crossSpec (p : IPt) (cs : List (List IPt)) : Int := cs.foldl (fun acc c => acc + sideChanges p c) 0
 
 def handleAll : List String → Option String
   | "RAYHITS" :: c :: px :: py :: n :: ts => do
@@ -223,17 +215,11 @@ def handleAll : List String → Option String
       let rep ← rep.toInt?
       let p : IPt := ⟨px, py⟩
       if subs.any (fun s => !s.1) then pure "skip open"
+      else if (crossingsPath p subs).2 then pure "skip boundary"
       else
-        let w := subs.foldl (fun acc s => acc.merge (walkClass ((rayHits s.1 p s.2).map Hit.z) (false, false) {})) ({} : WalkClass)
-        if w.boundary then pure "skip boundary"
-        else if w.unpaired then pure "skip unpaired"
-        else if w.touch then pure "skip touch"
-        else
-          let spec := crossSpec p (subs.map (·.2))
-          if spec == rep then pure (if w.step then "ok step" else "ok")
-          else
-            let cls := if w.collinear then "collinear-horizontal-edges" else if w.step then "horizontal-step" else "crossings"
-            pure s!"FAIL {cls} spec={spec} reported={rep}"
+        let spec := crossSpec p (subs.map (·.2))
+        if spec == rep then pure "ok"
+        else pure s!"FAIL crossings spec={spec} reported={rep}"
     | _ => none
   | "WINDV" :: delta :: "P" :: ts => do
     let delta ← Canvas.Region.parseRaw delta
